@@ -76,6 +76,10 @@ Again == /\ pc = "done" /\ mode \in {1,2}
          /\ UNCHANGED <<minL,targetL,con,de,memo>>
 Next == Dispatch \/ StrictRet \/ RecLoop \/ RecRet \/ ALoop \/ ARet \/ BStart \/ BRet \/ Again
 Spec == Init /\ [][Next]_vars
+\* every run ends: under weak fairness of the next-state relation the three runs (mode 1, 2, 0) all reach "done"
+\* (the step loops are bounded by MaxIter1 / MaxIter2 and by the search returning its input) - checked by MC_Strat_live.cfg
+FairSpec == Spec /\ WF_vars(Next)
+Terminates == <>(pc = "done" /\ mode = 0)
 Done == pc = "done"
 C01_FlagExact == Done => FlagExactP(success, con[result] >= minL)
 C02_NoHarm    == Done => NoHarmP(con[result] >= con[0])
